@@ -123,8 +123,8 @@ Proof.
           try (intros [= <- <- <- <- <-]; reflexivity)).
 Qed.
 
-Ltac proj := cbn [v_code v_queue v_stored v_jt v_killed v_errors v_next_id v_polls v_counter v_retired v_cfg
-                  tip tvis tgas tstate snd fst].
+Ltac proj := cbn [v_code v_queue v_stored v_jt v_killed v_errors v_next_id v_polls v_counter v_retired v_paths v_cfg
+                  tip tvis tgas tstate tpath snd fst].
 Ltac solve_len := cbn [length] in *; rewrite ?app_length in *; cbn [length] in *; lia.
 
 (* ---- the invariant of the main loop ---- *)
@@ -190,13 +190,13 @@ Proof.
   pose proof (vis_ok_bump t Ht) as Hok1. destruct Ht as (Hip & Hlt & Hok & Hgas).
   destruct (exec_instr fold cfg code (bump (tip t) (tvis t)) (v_jt m) (tip t) i c1) as [[[[c3 err] serr] k] jt'] eqn:Ex.
   pose proof (exec_instr_ctl _ _ _ _ _ _ _ _ _ _ Ex) as Hk.
-  assert (Hgen : forall errors2 killed gas' (k0 : ctl),
+  assert (Hgen : forall errors2 killed gas' pth (k0 : ctl),
     k0 = k ->
-    Inv (advance (mk_vm code (t :: rest) (v_stored m) jt' killed errors2 (o_id c3) (o_polls c3) (v_counter m + 1) (v_retired m) cfg)
-           (mk_thread (o_st c3) (bump (tip t) (tvis t)) (match k0 with CJump target => target | _ => tip t end) gas') rest
-           (match k0 with CFork target => [mk_thread (with_fork_point (o_st c3) (tip t)) (bump (tip t) (tvis t)) target (tgas t)] | _ => [] end))).
+    Inv (advance (mk_vm code (t :: rest) (v_stored m) jt' killed errors2 (o_id c3) (o_polls c3) (v_counter m + 1) (v_retired m) (v_paths m) cfg)
+           (mk_thread (o_st c3) (bump (tip t) (tvis t)) (match k0 with CJump target => target | _ => tip t end) gas' pth) rest
+           (match k0 with CFork target => [mk_thread (with_fork_point (o_st c3) (tip t)) (bump (tip t) (tvis t)) target (tgas t) (tpath t ++ [true])] | _ => [] end))).
   2: { destruct err as [e|]; cbv beta iota zeta; intros [= <-]; apply Hgen; reflexivity. }
-  intros errors2 killed gas' k0 ->.
+  intros errors2 killed gas' pth k0 ->.
   destruct k as [|target|target]; cbn in Hk.
   - subst jt'. apply advance_inv; proj; auto. solve_len.
   - destruct Hk as [-> Ht]. apply advance_inv; proj; auto. solve_len.
@@ -339,14 +339,14 @@ Proof.
   pose proof (vsum_le _ Hok1) as Hle1.
   assert (Hphi : phi m = term t + qsum rest + (F * len - sumc (v_jt m) (length code)) * cap)
     by (unfold phi; rewrite Eq; cbn [qsum]; lia).
-  assert (Hgen : forall errors2 killed gas' (k0 : ctl),
+  assert (Hgen : forall errors2 killed gas' pth (k0 : ctl),
     k0 = k ->
-    phi (advance (mk_vm code (t :: rest) (v_stored m) jt' killed errors2 (o_id c3) (o_polls c3) (v_counter m + 1) (v_retired m) cfg)
-           (mk_thread (o_st c3) (bump (tip t) (tvis t)) (match k0 with CJump target => target | _ => tip t end) gas') rest
-           (match k0 with CFork target => [mk_thread (with_fork_point (o_st c3) (tip t)) (bump (tip t) (tvis t)) target (tgas t)] | _ => [] end))
+    phi (advance (mk_vm code (t :: rest) (v_stored m) jt' killed errors2 (o_id c3) (o_polls c3) (v_counter m + 1) (v_retired m) (v_paths m) cfg)
+           (mk_thread (o_st c3) (bump (tip t) (tvis t)) (match k0 with CJump target => target | _ => tip t end) gas' pth) rest
+           (match k0 with CFork target => [mk_thread (with_fork_point (o_st c3) (tip t)) (bump (tip t) (tvis t)) target (tgas t) (tpath t ++ [true])] | _ => [] end))
     < phi m).
   2: { destruct err as [e|]; cbv beta iota zeta; intros [= <-]; apply Hgen; reflexivity. }
-  intros errors2 killed gas' k0 ->.
+  intros errors2 killed gas' pth k0 ->.
   match goal with |- phi (advance ?mm ?tt ?rr ?ff) < _ =>
     pose proof (phi_advance mm tt rr ff eq_refl eq_refl) as P end.
   proj. cbn [v_jt] in P. unfold term in P at 1. cbn [tvis] in P. rewrite Hphi. unfold term at 1.
